@@ -1,13 +1,13 @@
 (* Extraction of the executable model used by the "wire" correspondence runs (C08, C09, C10,
    and the low-level checks). *)
 From Coq Require Import Extraction ExtrOcamlBasic.
-From Iodine Require Import Codec Hostname DnsName DnsMsg DnsWf.
+From Iodine Require Import Codec Hostname DnsName DnsMsg DnsWf Domain.
 Extraction Language OCaml.
 Set Extraction Optimize.
 Extraction "extracted/model_wire.ml" DnsMsg.write_dns DnsMsg.client_extract DnsMsg.dns_decode_query
   DnsMsg.dns_encode_query DnsMsg.dns_get_id DnsMsg.aux_answer
   Hostname.send_chunk_name Hostname.packet_name Hostname.probe_name Hostname.unpack_data
   Hostname.version_data Hostname.login_data Hostname.ping_data Hostname.fragsize_data
-  Hostname.handshake_name Hostname.upenctest_name Hostname.plain_datalen
+  Hostname.handshake_name Hostname.upenctest_name Domain.query_datalen
   Codec.b32 Codec.b64 Codec.b64u Codec.b128 Codec.b32_5to8
   DnsWf.wf_msg DnsWf.dotted.
